@@ -6,13 +6,14 @@ prints; Apply(a, Diff(a, b)) = b and Diff(a, a) = {} are invariants of the gener
  A: TreeDiff_Gen enumerates all ordered pairs of trees in which each of the names {a, a.b[, a0]} (chosen for git's
     directory sort order) is absent, a leaf (file / executable / symlink / submodule, two contents) or a directory (one or
     two levels). All distinct trees are built with `git mktree --batch` (blobs with git hash-object), read back with
-    `git ls-tree -r -t` and compared with the abstract tree. gix_diff::tree + Recorder and gix_diff::tree_with_rewrites
+    `git cat-file --batch` (every directory object) and compared with the abstract tree. gix_diff::tree + Recorder and gix_diff::tree_with_rewrites
     (rewrites: None) run on every pair; their change lists, translated to abstract records, must be the printed set.
  B: seeded random larger trees (3 levels, sort-order traps in the names) and edits; change lists judged by TreeDiff_Trace
     (set equality, no duplicates, Apply(a, changes) = b).
  C: `git diff-tree -r -t --no-renames --raw --no-abbrev --stdin` on all pairs in one process: compared with the printed
     expectation (A) / judged by the same trace module (B).
 """
+import concurrent.futures
 import hashlib
 from vf import *
 from props.c46 import gitc
@@ -86,24 +87,45 @@ class Trees:
                 self.dir_oid[k] = o
         for k in trees:
             self.oid[k] = self.dir_oid[self.ckey[k]]
-        # read back: every root tree listed recursively by git, compared with the abstract leaves
+        gitc(["repack", "-a", "-d", "-q"], cwd=self.git)      # one pack: reading thousands of loose trees again and again is slow
+        # read back: every directory object is fetched with git cat-file and parsed; every root tree is then listed
+        # recursively from what git returned and compared with the abstract leaves
+        oids = sorted(set(self.dir_oid.values()))
+        data = gitc(["cat-file", "--batch"], cwd=self.git, input=("\n".join(oids) + "\n").encode())
+        parsed, pos = {}, 0
+        for o in oids:
+            nl = data.index(b"\n", pos)
+            head = data[pos:nl].split()
+            if len(head) != 3 or head[0].decode() != o or head[1] != b"tree":
+                raise ToolError("read-back: %r" % data[pos:nl])
+            body = data[nl + 1: nl + 1 + int(head[2])]
+            pos = nl + 1 + int(head[2]) + 1
+            ents, i = [], 0
+            while i < len(body):
+                sp = body.index(b" ", i)
+                nul = body.index(b"\0", sp)
+                ents.append((body[i:sp].decode().zfill(6), body[sp + 1:nul].decode(), body[nul + 1:nul + 21].hex()))
+                i = nul + 21
+            parsed[o] = ents
+
+        def listing(o, prefix, tab, leaves):
+            for m, name, child in parsed[o]:
+                path = prefix + name
+                tab[path] = (m, child)
+                if m == "040000":
+                    listing(child, path + "/", tab, leaves)
+                else:
+                    is_commit, n = self.blob_of.get(child, (None, None))
+                    if n is None or is_commit != (m == "160000"):
+                        raise ToolError("read-back: unknown object %s in tree" % child)
+                    leaves.append((path.split("/"), KIND[m], n))
+
         self.table = {}
         for k, lv in trees.items():
-            out = gitc(["ls-tree", "-r", "-t", "-z", self.oid[k]], cwd=self.git).decode()
             tab, leaves = {}, []
-            for rec in out.split("\0"):
-                if not rec:
-                    continue
-                meta, path = rec.split("\t", 1)
-                m, typ, o = meta.split()
-                tab[path] = (m, o)
-                if typ != "tree":
-                    is_commit, n = self.blob_of.get(o, (None, None))
-                    if n is None or is_commit != (typ == "commit"):
-                        raise ToolError("read-back: unknown object %s in tree" % o)
-                    leaves.append((path.split("/"), KIND[m], n))
+            listing(self.oid[k], "", tab, leaves)
             if sorted(leaves) != sorted((e["p"], e["k"], e["id"]) for e in lv):
-                raise ToolError("read-back mismatch: git lists %s for abstract tree %s" % (leaves, k))
+                raise ToolError("read-back mismatch: git has %s for abstract tree %s" % (leaves, k))
             self.table[k] = tab
         ctx.log("built %d distinct trees (%d directories) with git mktree and read them back in %.1fs"
                 % (len(trees), len(self.dir_oid), time.time() - t0))
@@ -128,8 +150,16 @@ def canon(changes):
     return sorted(json.dumps(c, sort_keys=True) for c in changes)
 
 
-def git_diffs(ctx, tr, pairs):
+def git_diffs(ctx, tr, pairs, threads=6):
     """binding C: abstract change lists of git diff-tree for [(ka, kb)]"""
+    step = max(1, (len(pairs) + threads - 1) // threads)
+    chunks = [pairs[i:i + step] for i in range(0, len(pairs), step)]
+    with concurrent.futures.ThreadPoolExecutor(threads) as ex:
+        parts = list(ex.map(lambda ch: git_diffs_1(tr, ch), chunks))
+    return [x for part in parts for x in part]
+
+
+def git_diffs_1(tr, pairs):
     inp = "".join("%s %s\n" % (tr.oid[a], tr.oid[b]) for a, b in pairs)
     out = gitc(["diff-tree", "-r", "-t", "--no-renames", "--raw", "--no-abbrev", "--stdin"], cwd=tr.git, input=inp.encode()).decode()
     res, cur = [], None
@@ -186,8 +216,8 @@ def classes_of(want, got, src):
 
 def gen_consts(ctx):
     if ctx.thorough:
-        return [{"Names": '{"a", "a.b"}', "Wide": "TRUE"}, {"Names": '{"a", "a.b", "a0"}', "Wide": "FALSE"}]
-    return [{"Names": '{"a", "a.b"}', "Wide": "FALSE"}]
+        return [{"Names": '{"a", "a.b"}', "Level": 2}, {"Names": '{"a", "a.b", "a0"}', "Level": 0}]
+    return [{"Names": '{"a", "a.b"}', "Level": 1}]
 
 
 def run(ctx):
@@ -298,7 +328,7 @@ def edit(rng, leaves):
 
 
 def random_part(ctx, binary):
-    n = 600 if not ctx.thorough else 12000
+    n = 400 if not ctx.thorough else 8000
     cases, trees, pairs = [], {}, []
     for _ in range(n):
         a = random_tree(ctx.rng, ctx.rng.randint(0, 12))
